@@ -48,6 +48,8 @@ package generic
 //@   loop 1 invariant rangeindex == -1 ==> !o.StopOnFailed && len(o.FailedWhenContains) == 0
 
 //@ func (*Driver).sendCommand [C13]
+//@   requires RI(d.Channel.Q) && d.Channel.PromptSearchDepth >= 0
+//@   ensures RI(d.Channel.Q)
 //@   modifies sent, driverOpts.FailedWhenContains, alloc(), optlog
 //@   ensures #one-exchange sent == old(sent) ++ strs(command)
 //@   ensures #nil-on-error result.1 != nil ==> result.0 == nil
@@ -57,6 +59,7 @@ package generic
 //@   ensures #contains-implies-failed result.1 == nil && validFWC(result.0.FailedWhenContains) && containsAnyS(result.0.Result, result.0.FailedWhenContains) ==> result.0.Failed != nil
 
 //@ func (*Driver).SendCommand [C13]
+//@   requires RI(d.Channel.Q) && d.Channel.PromptSearchDepth >= 0
 //@   modifies sent, alloc(), optlog
 //@   ensures #one-exchange result.1 == nil ==> sent == old(sent) ++ strs(command)
 //@   ensures #nil-on-error result.1 != nil ==> result.0 == nil
@@ -64,6 +67,7 @@ package generic
 //@   ensures #contains-implies-failed result.1 == nil && validFWC(result.0.FailedWhenContains) && containsAnyS(result.0.Result, result.0.FailedWhenContains) ==> result.0.Failed != nil
 
 //@ func (*Driver).SendCommands [C13]
+//@   requires RI(d.Channel.Q) && d.Channel.PromptSearchDepth >= 0
 //@   modifies sent, alloc(), optlog
 //@   ensures #empty-list len(commands) == 0 ==> isErr(result.1, util.ErrNoOp) && sent == old(sent)
 //@   ensures #nil-on-error result.1 != nil ==> result.0 == nil
@@ -74,7 +78,7 @@ package generic
 //@   at return assert #stop-on-failed result.1 == nil && op.StopOnFailed ==> (forall j int :: 0 <= j && j < len(m.Responses) - 1 ==> m.Responses[j].Failed == nil)
 //@   at return assert #all-sent-without-stop result.1 == nil && !op.StopOnFailed ==> len(m.Responses) == len(commands)
 //@   loop 1 invariant -1 <= rangeindex && rangeindex < len(commands) - 1
-//@   loop 1 invariant err == nil && multiWF(m) && alive(m) && alive(op)
+//@   loop 1 invariant err == nil && multiWF(m) && alive(m) && alive(op) && RI(d.Channel.Q)
 //@   loop 1 invariant isnew(m) && (m.Failed != nil ==> isnew(as(m.Failed, "*response.MultiOperationError")))
 //@   loop 1 invariant unchanged(response.MultiResponse.Responses) && unchanged(response.MultiResponse.Failed) && unchanged(response.MultiResponse.EndTime) && unchanged(response.MultiResponse.ElapsedTime) && unchanged(response.MultiOperationError.Operations)
 //@   loop 1 invariant len(m.Responses) == rangeindex + 1
@@ -88,8 +92,11 @@ package generic
 
 //@ func (*Driver).GetPrompt
 //@   noverify
+//@   requires RI(d.Channel.Q) && d.Channel.PromptSearchDepth >= 0
+//@   ensures RI(d.Channel.Q)
 //@   modifies wire, rd, quiet, alloc(), all(util.Queue.queue), all(util.Queue.depth)
 //@   ensures result.1 != nil ==> result.0 == ""
 //@ func (*Driver).SendCommandsFromFile
 //@   noverify
+//@   requires RI(d.Channel.Q) && d.Channel.PromptSearchDepth >= 0
 //@   modifies sent, alloc(), optlog
